@@ -267,7 +267,8 @@ def check_framing(ctx):
         qcall = next(c for c in qb[0].calls if call_name(c) == "self._thread.queue_block")
         # the decoded block is queued: through a local or as the argument itself
         queued_is_decoded = len(qcall.args) == 2 and (norm(qcall.args[1]) in dvar or qcall.args[1] is dcall)
-        ok = norm(dcall.args[0]) in cvars and queued_is_decoded and cfg.dominates(cn, dec[0]) and (dec[0] is qb[0] or cfg.dominates(dec[0], qb[0]))
+        consumed_is_decoded = norm(dcall.args[0]) in cvars or dcall.args[0] is cc  # through a local or as the argument itself
+        ok = consumed_is_decoded and queued_is_decoded and (cn is dec[0] or cfg.dominates(cn, dec[0])) and (dec[0] is qb[0] or cfg.dominates(dec[0], qb[0]))
     ctx.ob("C04.P1", q, ok, "the consumed frame is decoded and that block is queued" if ok else "the queued block is not the decode of the bytes just consumed", key="decode-queue", where=f.where)
 
 
@@ -379,7 +380,7 @@ def check_byte_queue(ctx, rule="C04.W1"):
     ap = [n for n in cfg.real_nodes() if any(c == "self._receive_buffer.append" for c in n.call_names())]
     tr = [n for n in cfg.real_nodes() if any(c == "self._thread.trigger_receiver" for c in n.call_names())]
     dp = rcv.node.args.args[1].arg
-    ok = len(ap) == 1 and len(tr) == 1 and cfg.dominates(ap[0], tr[0]) and norm(next(c for c in ap[0].calls if call_name(c) == "self._receive_buffer.append").args[0]) == f"{dp}['data']"
+    ok = len(ap) == 1 and len(tr) == 1 and cfg.dominates(ap[0], tr[0]) and rules.expand(rcv.node, next(c for c in ap[0].calls if call_name(c) == "self._receive_buffer.append").args[0]) == f"{dp}['data']"
     ctx.ob(rule, rcv.qualname, ok, "received bytes are appended, then the receiver is triggered" if ok else "received bytes are not appended before the receiver is triggered (or not appended unchanged)", where=rcv.where)
     pd = repo.method("Protocol", "_process_data", inherited=False)
     names = [call_name(c) for c in calls_in(pd.node)]
@@ -390,7 +391,9 @@ def check_byte_queue(ctx, rule="C04.W1"):
     ok = len(disp) == 1 and [norm(a) for a in disp[0].args[:2]] == ["self._process_data", "self._dispatch_block"]
     ctx.ob(rule, init.qualname, ok, "the dispatcher is wired to _process_data (receiver) and _dispatch_block (dispatcher)" if ok else f"ProtocolDispatcher is wired with {[norm(a) for a in disp[0].args] if disp else None}", where=init.where)
     conn = repo.method("Protocol", "_connection", inherited=False)
-    reg = {norm(c.func): norm(c.args[0]) for c in calls_in(conn.node) if isinstance(c.func, ast.Attribute) and c.func.attr == "register" and c.args}
+    from .. import inline
+
+    reg = {norm(c.func): norm(c.args[0]) for c in calls_in(inline.expanded(ctx, conn)) if isinstance(c.func, ast.Attribute) and c.func.attr == "register" and c.args}
     ok = any(k.endswith("on_data.register") and v == "self._on_connection_data_received" for k, v in reg.items())
     ctx.ob(rule, conn.qualname, ok, "the protocol listens to the connection's on_data" if ok else "on_data is not wired to _on_connection_data_received", where=conn.where)
 
